@@ -174,11 +174,23 @@ func (w *World) exchange(p *pfcpx.Peer, kind string, req map[string]interface{},
 	p.Drain()
 
 	cmds0 := w.Bess.Snapshot().Cmds
+	logMark := w.dropLogCount()
 	_ = p.SendRaw(raw)
 
 	got := false
+	drops := 0
+
 	if expectResp {
 		got = p.WaitN(1, w.RespWait)
+
+		if !got && w.dropLogCount() > logMark && w.Agent != nil && w.Agent.Alive() {
+			// the agent logged "drop packet for existing PFCPconn": the kernel handed the datagram of an associated
+			// peer to the node's listening socket and the node dropped it (listed known finding F-LISTENER-DROP).
+			// Like a control plane would, the peer transmits the request again.
+			drops = w.dropLogCount() - logMark
+			_ = p.SendRaw(raw)
+			got = p.WaitN(1, w.RespWait)
+		}
 	}
 
 	if w.pendingWait != nil {
@@ -196,6 +208,10 @@ func (w *World) exchange(p *pfcpx.Peer, kind string, req map[string]interface{},
 
 	for _, d := range ds {
 		resps = append(resps, w.respJSON(d))
+	}
+
+	if drops > 0 {
+		w.emit(map[string]interface{}{"ev": "listenerdrop", "peer": p.Name, "n": drops})
 	}
 
 	ev := map[string]interface{}{"ev": "req", "kind": kind, "peer": p.Name, "req": req, "resps": resps}
@@ -739,12 +755,27 @@ func (w *World) Inject(peer, what string, raw []byte) []pfcpx.Dgram {
 	}
 
 	seq := p.NextSeq()
+	logMark := w.dropLogCount()
 	_ = p.Send(message.NewHeartbeatRequest(seq, ie.NewRecoveryTimeStamp(p.TS), nil))
 
 	deadline := time.Now().Add(w.RespWait)
 	barrier := -1
+	resent := false
 
-	for barrier < 0 && time.Now().Before(deadline) {
+	for barrier < 0 && (time.Now().Before(deadline) || !resent) {
+		if !time.Now().Before(deadline) {
+			// no answer to the barrier heartbeat: transmit it again once if the agent logged a listener drop
+			resent = true
+
+			if w.dropLogCount() > logMark && w.Agent != nil && w.Agent.Alive() {
+				w.emit(map[string]interface{}{"ev": "listenerdrop", "peer": p.Name, "n": w.dropLogCount() - logMark})
+				_ = p.Send(message.NewHeartbeatRequest(seq, ie.NewRecoveryTimeStamp(p.TS), nil))
+				deadline = time.Now().Add(w.RespWait)
+			}
+
+			continue
+		}
+
 		for i, d := range p.Peek() {
 			if d.TypeNum == int(message.MsgTypeHeartbeatResponse) && d.Seq == seq {
 				barrier = i
@@ -932,4 +963,13 @@ func (w *World) teardownWait() time.Duration {
 	}
 
 	return 400 * time.Millisecond
+}
+
+// dropLogCount counts the agent's log lines that say it dropped a datagram at its listening socket.
+func (w *World) dropLogCount() int {
+	if w.Agent == nil {
+		return 0
+	}
+
+	return strings.Count(w.Agent.Stderr(), "drop packet for existing PFCPconn")
 }
